@@ -266,6 +266,10 @@ func c20EnvironRaw(c *core.Ctx, cs c20Case) {
 			return
 		}
 	}
+	if g, present := got["IFS"]; !present || g != " \t\n" {
+		c.Violation("environ", key, `IFS=" \t\n" right after NewExecEnv`, fmt.Sprintf("%q (present=%v)", g, present), "")
+		return
+	}
 	if out.EmptySet {
 		c.Violation("environ", key, `Get("") reports unset`, "set", "")
 		return
@@ -310,6 +314,11 @@ func c20Exec(c *core.Ctx, cs c20Case) {
 			c.Violation("environ", fmt.Sprintf("environment %q", cs.Environ), "special and positional parameters reflect Args / Opts only; Walk enumerates ordinary variables", fmt.Sprintf("Walk reports %q=%q right after NewExecEnv", n, m.vars[n]), "")
 			return
 		}
+	}
+	// IFS is set by the shell when it starts, whatever the environment says (XCU 2.5.3)
+	if got, ok := m.vars["IFS"]; !ok || got != " \t\n" {
+		c.Violation("environ", fmt.Sprintf("environment %q", cs.Environ), `IFS=" \t\n" right after NewExecEnv`, fmt.Sprintf("%q (present=%v)", got, ok), "")
+		return
 	}
 	for _, kv := range cs.Environ {
 		if k, v, _ := strings.Cut(kv, "="); !isSpecial(k) && !isPositional(k) && k != "IFS" {
@@ -537,13 +546,13 @@ func c20RandOp(r *rand.Rand) c20Op {
 func c20Gen(c *core.Ctx) {
 	alpha := c20Alphabet()
 	// hostile process environments
-	for i, e := range [][]string{{"1=from-env"}, {"@=x", "*=y"}, {"#=9", "?=1", "-=z", "!=b", "$=7", "0=n"}, {"10=z", "A=fromenv"}, {"a=5", "_b1=", "2=two"}} {
+	for i, e := range [][]string{{"1=from-env"}, {"@=x", "*=y"}, {"#=9", "?=1", "-=z", "!=b", "$=7", "0=n"}, {"10=z", "A=fromenv"}, {"a=5", "_b1=", "2=two"}, {"IFS=:", "a=1"}, {"IFS=", "b=2"}} {
 		for k := 0; k < len(alpha); k++ {
 			core.Do(c, c20Case{Environ: e, Ops: []c20Op{alpha[k], alpha[(k+i+1)%len(alpha)]}, Kind: "environ"}, c20Exec)
 		}
 	}
 	// environment blocks only a parent process can hand over (a child process is the probe)
-	for _, e := range [][]string{{"=x"}, {"=x", "A=1"}, {"novalue", "A=1"}, {"=x=y", "B=2"}, {"=", "C=3"}, {"A=1", "A=2", "D=4"}, {"==", "E=a=b"}, {"1=one", "=x", "@=y", "F=f"}, {"名=v", "=名"}, {}} {
+	for _, e := range [][]string{{"=x"}, {"=x", "A=1"}, {"novalue", "A=1"}, {"=x=y", "B=2"}, {"=", "C=3"}, {"A=1", "A=2", "D=4"}, {"==", "E=a=b"}, {"1=one", "=x", "@=y", "F=f"}, {"名=v", "=名"}, {"IFS=,", "G=g"}, {}} {
 		core.Do(c, c20Case{Environ: e, Kind: "environ-raw"}, c20Exec)
 	}
 	maxLen := c.Pick(3, 4)
